@@ -2,3 +2,4 @@ pub mod core;
 pub mod lattice;
 pub mod refcal;
 pub mod refleap;
+pub mod reftext;
